@@ -596,9 +596,10 @@ pub fn arb_stream(set: CharSet, max_len: usize) -> BoxedStrategy<Stream> {
 /// reused between rows, size-triggered code paths, anything that only happens above 64 KiB.
 pub fn arb_huge_value_stream() -> BoxedStrategy<Stream> {
     let huge = prop_oneof![
-        (9000usize..30000, 0u8..3).prop_map(|(n, k)| match k {
+        (9000usize..30000, 0u8..4).prop_map(|(n, k)| match k {
             0 => format!("[{}0]", "12345678,".repeat(n)),
             1 => format!("\"{}\"", "abcdefghij".repeat(n)),
+            3 => format!("\"{}\"", "a\u{e9}\u{65e5}\u{e9}\u{20ac}b\u{7ff}".repeat(n)),
             _ => format!("{{\"k\":[{}\"end\"]}}", "\"v\\u00e9\",".repeat(n)),
         }),
     ];
@@ -626,6 +627,9 @@ pub fn arb_long_stream() -> BoxedStrategy<Stream> {
         1 => "[1-9]\\.[0-9]{1,6}[eE][+-]?[0-9]{1,2}",
         3 => "[a-z \u{e9}\u{65e5}]{0,24}".prop_map(|t| { let mut o = String::new(); crate::rjson::write_json_string(&t, &mut o); o }),
         2 => "[a-z]{0,12}".prop_map(|t| format!("\"{}\\n\\u00e9\\\"{}\"", t, t)),
+        // dense multi-byte text (2- and 3-byte characters at every alignment): a block boundary
+        // of any size falls inside a character more often than not
+        4 => "[a\u{e9}\u{7ff}\u{65e5}\u{20ac}\u{ffff}]{8,60}".prop_map(|t| format!("\"{}\"", t)),
         3 => Just("{}".to_string()),
         2 => Just("[]".to_string()),
         2 => "[a-z]{1,6}".prop_map(|k| format!("{{\"{}\":[1,{{\"x\":null}},\"y\"]}}", k)),
